@@ -9,6 +9,7 @@
                                       apply /verif/seeded/<id>/patch.diff to /repo, run the quick checks of the
                                       given properties (default: the one named in meta.json), undo the patch.
   tools/seeded.py runall              run every kept seeded change against its property's check.
+  tools/seeded.py robust <seed>...    the same at other seeds (recorded under other_seeds in meta.json).
 """
 import json
 import os
@@ -68,7 +69,7 @@ def confirm(d, race=False):
     return res
 
 
-def run(sid, props):
+def run(sid, props, seed=None):
     d = os.path.join(VERIF, "seeded", sid)
     meta = json.load(open(os.path.join(d, "meta.json")))
     props = props or [meta["property"]]
@@ -83,11 +84,14 @@ def run(sid, props):
             return None
         for p in props:
             t0 = time.time()
-            r = sh(f"./check {p} --tier quick", cwd=VERIF, timeout=2400)
+            r = sh(f"./check {p} --tier quick" + (f" --seed {seed}" if seed else ""), cwd=VERIF, timeout=2400)
             verdict = {0: "MISSED", 1: "caught", 2: "inconclusive"}.get(r.returncode, str(r.returncode))
             first = [l for l in r.stdout.splitlines() if l.startswith(("VIOLATION", "INCONCLUSIVE"))]
             out[p] = {"verdict": verdict, "seconds": round(time.time() - t0, 1), "line": first[0][:200] if first else "", "cmd": f"git -C /repo apply seeded/{sid}/patch.diff; ./check {p} --tier quick; git -C /repo checkout -- ."}
-            meta.setdefault("checks_run", {})[p] = out[p]
+            if seed:
+                meta.setdefault("other_seeds", {}).setdefault(p, {})[str(seed)] = verdict
+            else:
+                meta.setdefault("checks_run", {})[p] = out[p]
             json.dump(meta, open(os.path.join(d, "meta.json"), "w"), indent=1)
             print(f"{sid:28s} {p} {verdict:12s} {time.time()-t0:6.1f}s {first[0][:120] if first else ''}", flush=True)
     finally:
@@ -104,6 +108,13 @@ def main():
         return 0
     if sys.argv[1] == "run":
         run(sys.argv[2], sys.argv[3:])
+        return 0
+    if sys.argv[1] == "robust":
+        # tools/seeded.py robust <seed> [<seed>...]: every kept change against its property's check at other seeds
+        for seed in sys.argv[2:]:
+            for sid in sorted(os.listdir(os.path.join(VERIF, "seeded"))):
+                if os.path.exists(os.path.join(VERIF, "seeded", sid, "meta.json")):
+                    run(sid, [], seed=int(seed))
         return 0
     if sys.argv[1] == "runall":
         results = {}
